@@ -510,6 +510,15 @@ func (ex *Exec) specCall(st *State, e *ast.CallExpr) []*Val {
 			k := ex.materialize(ex.expr(st, e.Args[1]), tString)
 			mh := ex.heap(st, "Map$"+smtName(SStr)+"$"+smtName(SStr), arrSort(SInt, arrSort(SStr, SStr)))
 			return one(&Val{T: tString, Term: sel(sel(mh, m.Term), k.Term)})
+		case "disjointSpare":
+			// disjointSpare(dst, src): appending to dst in place cannot touch src's bytes
+			d := ex.expr(st, e.Args[0])
+			s2 := ex.expr(st, e.Args[1])
+			dt, stt := d.Term, s2.Term
+			return one(&Val{T: tBool, Term: or(
+				not(eq(ex.sRef(dt), ex.sRef(stt))),
+				le(add(ex.sOff(stt), ex.sLen(stt)), add(ex.sOff(dt), ex.sLen(dt))),
+				le(add(ex.sOff(dt), ex.sCap(dt)), ex.sOff(stt)))})
 		case "sameArray":
 			// sameArray(a, b): the two slices share their backing array
 			a := ex.expr(st, e.Args[0])
